@@ -275,6 +275,14 @@ def run(ctx):
                 'canonical': uncodes(sps[len(sps) // 2]['canon'])})
     # ---- spec -> code
     _replay_spellings(ctx, sps)
+    if thorough:
+        # a second small world: four names (C O CO C[d]), shorter spellings
+        r2 = ctx.tlc('MC_GroupName', 'MC_GroupName_t2.cfg', env={'VOUT': fd_out}, workers=16, timeout=3000)
+        with open(fd_out) as f:
+            sps2 = json.load(f)['spellings']
+        ctx.extra['mc2'] = {'cfg': 'MC_GroupName_t2.cfg', 'distinct_states': r2.distinct, 'transitions': r2.generated,
+                            'spellings_exported': len(sps2)}
+        _replay_spellings(ctx, sps2)
     # ---- Pass B: code -> spec
     rng = random.Random(ctx.seed)
     ntr, ln, maxn = (400, 40, 12) if thorough else (60, 30, 8)
